@@ -335,10 +335,90 @@ const (
 	kindReturn
 	kindIfCond
 	kindIfInit
+	kindNested // the call is a sub-expression of the statement: hoisted into a temporary
 )
 
 // tryStmt recognises the supported call contexts in one statement.
 func (c *inlCtx) tryStmt(st ast.Stmt) {
+	before := len(c.edits)
+	c.tryStmtDirect(st)
+	if len(c.edits) == before {
+		c.tryNested(st)
+	}
+}
+
+// tryNested hoists an inlinable call that is a sub-expression of a simple statement (`x = append(x, f(a))`,
+// `return wrap(f(a))`, `if g(f(a)) {`): the call is evaluated into a temporary right before the statement. That keeps
+// the order of evaluation only when nothing else in the statement can have an effect, so the statement may contain no
+// other call than builtins and conversions.
+func (c *inlCtx) tryNested(st ast.Stmt) {
+	info := c.pk.TypesInfo
+	var roots []ast.Expr
+	switch t := st.(type) {
+	case *ast.ExprStmt:
+		roots = []ast.Expr{t.X}
+	case *ast.AssignStmt:
+		roots = append(roots, t.Rhs...)
+		for _, l := range t.Lhs {
+			if _, isIdent := l.(*ast.Ident); !isIdent {
+				roots = append(roots, l)
+			}
+		}
+	case *ast.ReturnStmt:
+		roots = t.Results
+	case *ast.DeclStmt:
+		if gd, ok := t.Decl.(*ast.GenDecl); ok && gd.Tok == token.VAR && len(gd.Specs) == 1 {
+			if vs, ok := gd.Specs[0].(*ast.ValueSpec); ok {
+				roots = vs.Values
+			}
+		}
+	case *ast.IfStmt:
+		if t.Init == nil {
+			roots = []ast.Expr{t.Cond}
+		}
+	default:
+		return
+	}
+	var cand *ast.CallExpr
+	others := 0
+	for _, r := range roots {
+		ast.Inspect(r, func(n ast.Node) bool {
+			switch t := n.(type) {
+			case *ast.FuncLit:
+				others++ // a literal may be invoked by a callee: be conservative
+				return false
+			case *ast.CallExpr:
+				if tv, has := info.Types[t.Fun]; has && tv.IsType() {
+					return true // conversion
+				}
+				if id, isId := ast.Unparen(t.Fun).(*ast.Ident); isId {
+					if _, isB := info.Uses[id].(*types.Builtin); isB {
+						return true
+					}
+				}
+				if _, _, _, _, _, _, ok := c.calleeOf(t); ok && cand == nil {
+					cand = t
+					// the arguments of the candidate are evaluated by the inlined bindings: they may contain calls,
+					// but nothing else in the statement may
+					return false
+				}
+				others++
+			case *ast.UnaryExpr:
+				if t.Op == token.ARROW {
+					others++
+				}
+			}
+			return true
+		})
+	}
+	if cand == nil || others > 0 {
+		return
+	}
+	// a direct context would have been handled already: here the call is strictly nested
+	c.tryCall(st, cand, kindNested, nil, false)
+}
+
+func (c *inlCtx) tryStmtDirect(st ast.Stmt) {
 	switch t := st.(type) {
 	case *ast.ExprStmt:
 		if call, ok := ast.Unparen(t.X).(*ast.CallExpr); ok {
@@ -836,6 +916,14 @@ func (c *inlCtx) tryCall(st ast.Stmt, call *ast.CallExpr, kind callKind, as *ast
 			targets = append(targets, t)
 		}
 		post = append(post, "return "+strings.Join(targets, ", "))
+	case kindNested:
+		if nres != 1 {
+			c.skip(call, name, "nested call with several results")
+			return
+		}
+		t := tag + "_v"
+		pre = append(pre, fmt.Sprintf("var %s %s", t, typeStr(sig.Results().At(0).Type())))
+		targets = append(targets, t)
 	case kindIfCond:
 		if nres != 1 {
 			c.skip(call, name, "condition call with several results")
@@ -1089,6 +1177,8 @@ func (c *inlCtx) tryCall(st ast.Stmt, call *ast.CallExpr, kind callKind, as *ast
 		sb.WriteString(l + "\n")
 	}
 	switch kind {
+	case kindNested:
+		sb.WriteString(string(c.src[c.tf.Offset(st.Pos()):c.tf.Offset(call.Pos())]) + targets[0] + string(c.src[c.tf.Offset(call.End()):c.tf.Offset(st.End())]) + "\n")
 	case kindIfInit:
 		ifs := st.(*ast.IfStmt)
 		sb.WriteString("if " + string(c.src[c.tf.Offset(ifs.Cond.Pos()):c.tf.Offset(ifs.End())]) + "\n")
@@ -1105,7 +1195,7 @@ func (c *inlCtx) tryCall(st ast.Stmt, call *ast.CallExpr, kind callKind, as *ast
 	}
 	// for `x := f()` the declared variables must stay visible after the block: the outer braces are dropped
 	text := sb.String()
-	if kind == kindAssign && as.Tok == token.DEFINE || kind == kindReturn {
+	if kind == kindAssign && as.Tok == token.DEFINE || kind == kindReturn || kind == kindNested {
 		text = strings.TrimPrefix(text, "{ // inlined "+name+"\n")
 		text = "// inlined " + name + "\n" + text
 	} else {
